@@ -29,7 +29,7 @@ ASSUMPTIONS = [
 ]
 REQUIRED = ['endpoint_server', 'endpoint_client', 'endpoint_file', 'partial_send_requeued', 'accept_zero', 'eagain_injected', 'eintr_injected',
             'enobufs_injected', 'fatal_injected', 'close_while_buffered', 'close_after_drain', 'two_connections_interleaved', 'empty_payload',
-            'write_after_close_request', 'server_wide_close', 'text_payload_multibyte', 'close_requested_by_peer_eof']
+            'write_after_close_request', 'server_wide_close', 'text_payload_multibyte', 'close_requested_by_peer_eof', 'client_reconnected_after_end', 'client_reconnected_after_unsent_backlog']
 REQUIRED_OBLIGATIONS = ['PREFIX', 'ALL_DELIVERED', 'CLOSE_WAITS_FOR_BUFFER', 'NO_SEND_AFTER_CLOSE', 'FATAL_SIGNALLED', 'CLOSE_HAPPENS']
 WORKER_TIMEOUT = {'quick': 300, 'thorough': 1800}
 EXHAUSTIVE = {'quick': 'all send scripts of length <= 3 over 8 outcomes x 3 payload sets (+ a multi-byte text set for File) x 4 close positions (asked for by a close event or, for sockets, by the peer shutting down its sending side) x 3 endpoints',
@@ -127,10 +127,12 @@ class ScriptedSocket(socket.socket):
         return ('127.0.0.1', 9999)
 
     def connect(self, addr):
+        if self._vs.closed:
+            raise OSError(errno.EBADF, 'closed socket')      # what connect() on a closed socket does: the client makes a new one
         return None
 
     def connect_ex(self, addr):
-        return 0
+        return errno.EINPROGRESS     # a non-blocking connect in progress; getpeername() then shows it established
 
     def setblocking(self, flag):
         pass
@@ -204,7 +206,15 @@ def make_world(endpoint, scripts):
     elif endpoint == 'client':
         from circuits.net.sockets import TCPClient
         s = ScriptedSocket(scripts[0])
-        cli = TCPClient(s, channel='cli').register(root)
+        later = []       # scripts for the sockets of later connections of the same component
+
+        class ScriptedTCPClient(TCPClient):
+            def _create_socket(self):
+                ns = ScriptedSocket(later.pop(0))
+                W['socks'].append(ns)
+                return ns
+        W['later_scripts'] = later
+        cli = ScriptedTCPClient(s, channel='cli').register(root)
         settle()
         root.fire(nev.connect('10.0.0.1', 80), 'cli')
         settle()
@@ -394,6 +404,36 @@ def run_case(case):
             counts['NO_SEND_AFTER_CLOSE'] += 1
             if any(e[0] == 'send-after-close' for e in sc.log):
                 problems.append(('NO_SEND_AFTER_CLOSE', {'connection': i, 'send_log': sc.log[-12:]}))
+        if endpoint == 'client' and case.get('reconnect') and scripts[0].closed and ok:
+            # the same component connects again: the new connection carries exactly what is written to it - nothing of the old one
+            from circuits.net import events as _nev
+            backlog = bytes(scripts[0].accepted) != bytes(written[0])
+            sc2 = Script(case.get('script2', []))
+            sc2.signals = W['signals']
+            W['later_scripts'].append(sc2)
+            W['root'].fire(_nev.connect('10.0.0.1', 80), 'cli')
+            W['settle']()
+            if W['comp'].connected and W['socks'][-1]._vs is sc2:
+                marks.add('client_reconnected_after_end')
+                if backlog:
+                    marks.add('client_reconnected_after_unsent_backlog')
+                second = [b'second-1;', b'second-22;', b'second-333.']
+                for d in second:
+                    W['write'](0, d)
+                W['close'](0)
+                for _r in range(12 + 2 * len(sc2.outcomes)):
+                    if not W['pump']():
+                        break
+                counts['PREFIX'] += 1
+                acc2, want2 = bytes(sc2.accepted), b''.join(second)
+                if want2[:len(acc2)] != acc2 or (not sc2.dead and acc2 != want2):
+                    problems.append(('PREFIX', {'connection': 'second connection of the same client', 'accepted': _short(acc2), 'written_to_it': _short(want2),
+                                                'written_to_the_first_connection': _short(bytes(written[0])), 'first_connection_accepted': _short(bytes(scripts[0].accepted)),
+                                                'send_log': sc2.log[-8:]}))
+                if not sc2.dead:
+                    counts['CLOSE_HAPPENS'] += 1
+                    if not sc2.closed:
+                        problems.append(('CLOSE_HAPPENS', {'connection': 'second connection of the same client', 'send_log': sc2.log[-8:]}))
         exc = [s for s in W['signals'] if s.startswith('exception:')]
         if exc and not problems:
             problems.append(('HANDLER_RAISED', {'exceptions': exc[:3]}))
@@ -445,6 +485,9 @@ def enum_cases(maxlen, part, parts):
                         yield {'endpoint': endpoint, 'payloads': pset, 'script': list(script), 'close_at': close_at}
                         if endpoint != 'file':
                             yield {'endpoint': endpoint, 'payloads': pset, 'script': list(script), 'close_at': close_at, 'close_by': 'eof'}
+                        if endpoint == 'client' and (any(o in FATAL for o in script) or close_at is not None):
+                            yield {'endpoint': endpoint, 'payloads': pset, 'script': list(script), 'close_at': close_at, 'reconnect': True,
+                                   'pump_between': n % 2 == 0}
                         if endpoint == 'server' and close_at in (None, 1):
                             yield {'endpoint': endpoint, 'payloads': pset, 'script': list(script), 'close_at': close_at, 'close_all': True}
 
@@ -462,6 +505,11 @@ def corpus():
     for script in (['P', 'P', 'P', 'P', 'P', 'P', 'P', 'P'], ['P', 'EAGAIN', 'P', 'Z', 'P', 'EINTR', 'P'], ['A', 'P', 'EPIPE']):
         for close_at in (None, 1):
             cs.append({'endpoint': 'file', 'payloads': 'u', 'script': script, 'close_at': close_at})
+    for script in (['EPIPE'], ['A', 'ECONNRESET'], ['P', 'EPIPE'], ['EAGAIN', 'EPIPE'], ['A', 'A', 'A']):
+        for pset in ('s', 'm'):
+            for close_at in (None, 1):
+                cs.append({'endpoint': 'client', 'payloads': pset, 'script': script, 'close_at': close_at, 'reconnect': True, 'pump_between': False})
+                cs.append({'endpoint': 'client', 'payloads': pset, 'script': script, 'close_at': close_at, 'reconnect': True, 'script2': ['P', 'EAGAIN', 'P']})
     for endpoint in ('server', 'client'):
         for script in ([], ['P', 'P', 'EAGAIN', 'P'], ['Z', 'EAGAIN', 'A', 'P', 'P'], ['A', 'P', 'EPIPE']):
             for close_at in (None, 1, 2):
@@ -490,6 +538,9 @@ def gen_case(rng):
         case['close_all'] = True
     elif case['endpoint'] != 'file' and rng.random() < 0.35:
         case['close_by'] = 'eof'
+    if case['endpoint'] == 'client' and rng.random() < 0.5:
+        case['reconnect'] = True
+        case['script2'] = [rng.choice(OUTCOMES[:6]) for _ in range(rng.randint(0, 5))]
     if case['endpoint'] == 'server' and rng.random() < 0.4:
         case['two'] = True
         case['script2'] = [rng.choice(OUTCOMES[:6]) for _ in range(rng.randint(0, 6))]
